@@ -473,6 +473,30 @@ def r10_escape_span(run, F):
     run.ob("R10-ESCAPE-SPAN", "scan", n >= 1, F.where(b), "%d escape decoder(s) of the first-generation lexer examined" % n)
 
 
+def r11_expression_location(run, F):
+    """The typer, the call analyzer and the resolver place a diagnostic *on an expression* through Expression::location().  For a
+    variant that has a `location` field (the span of the whole expression) that field is the answer: not the location of the
+    operator, of the target type of a cast or of another part, which covers only a piece of the offending text."""
+    b = F.body("alpha::common::Expression::location")
+    ms = hirq.matches_on_type(F.lib, b["hir"], "common::Expression", min_alts=8)
+    run.require(len(ms) >= 1, "Expression::location: match on the expression not found")
+    variants = {v["name"]: [f["name"] for f in v.get("fields", [])] for v in F.adt("alpha::common::Expression")["variants"]}
+    n = 0
+    for arm in ms[0]["arms"]:
+        for alt in hirq.pat_alts(arm["pat"]):
+            v = hirq.pat_key(alt).split("::")[-1]
+            if "location" not in variants.get(v, []):
+                continue
+            n += 1
+            fps, _ = hirq.field_pats(alt)
+            body = hirq.unwrap_trivial(arm["body"])
+            bind = hirq.strip_ref((fps or {}).get("location", {}))
+            ok = bind.get("k") == "Bind" and body.get("k") == "Path" and body.get("lid") == bind.get("lid")
+            run.ob("R11-EXPRESSION-LOCATION", v, ok, F.where(b, arm),
+                   "Expression::%s has a `location` of the whole expression; location() answers with %s" % (v, sorted(fps or {}) if not ok else "it"))
+    run.floor("R11-EXPRESSION-LOCATION", 10, "variants of Expression with a location field (12 counted)")
+
+
 def check(run):
     F = run.facts("B")
     r1_codes(run, F)
@@ -485,3 +509,4 @@ def check(run):
     r8_derived_spans(run, F)
     r9_operator_location_after_pop(run, F)
     r10_escape_span(run, F)
+    r11_expression_location(run, F)
